@@ -5,12 +5,17 @@ admitted on the link s -> t and s is justified; finalizes s only when t is its d
 Invalid signatures (ok = FALSE) never count. JustifiedHasSupermajority / FinalizedHasJustifiedChild are
 model-checked; the replay compares, after every path, the status of every checkpoint (stored record and
 in-memory tree) with the specification.
+
+specs/chain/ValidatorSets.tla: the validators entitled to vote for a checkpoint are those of the PARENT epoch, each in
+the header slot of its order there; the table changes between epochs through vote / veto transactions. Every transition
+(blocks whose checkpoint header carries signatures of rightful keys, of the next epoch's keys and of strangers;
+verification messages of every key; restarts) is replayed on the real engine over a real store (cmd/c18 sets).
 """
 import chain_lib
 
 
 def run(ctx):
-    parts = [chain_lib.run_casper(ctx)]
+    parts = [chain_lib.run_casper(ctx), chain_lib.run_sets(ctx)]
     chain_lib.finish_chain(ctx, parts,
         rule="every transition of CasperNode.tla within the cfg bounds, replayed with its path; checkpoint statuses compared",
-        assumptions=["E = 2, federation validators (N = 1, 3, 4)", "restart (reload of statuses) is covered by the crash family (C19)"])
+        assumptions=["E = 2, federation validators (N = 1, 3, 4) in the node replay; voted validator tables of 1-7 keys changing over three epochs in the engine replay (ValidatorSets.tla)", "restart (reload of statuses) is covered by the crash family (C19)"])
